@@ -56,6 +56,22 @@ type Tx struct {
 	Gas   uint64          `json:"gas"` // execution gas on top of the intrinsic / floor cost
 	Tip   uint64          `json:"tip"` // gwei
 	Data  HexBytes        `json:"data,omitempty"`
+	Auths []Auth          `json:"auths,omitempty"` // non-empty = EIP-7702 set-code transaction (Prague+, To must be set)
+}
+
+// Auth is one EIP-7702 authorization of a set-code transaction. Signer indexes senderKeys (a funded sender or one
+// of the world's extra, unfunded authorities). Target nil = the zero address = clear the delegation. The builder signs
+// it with the authority's nonce at that point of block generation plus Skew (Skew != 0 makes it invalid: skipped by geth).
+type Auth struct {
+	Signer int             `json:"signer"`
+	Target *common.Address `json:"target"`
+	Skew   int             `json:"skew,omitempty"`
+}
+
+// Deleg is a delegation that already exists in genesis.
+type Deleg struct {
+	Signer int            `json:"signer"`
+	To     common.Address `json:"to"`
 }
 
 type Wd struct {
@@ -77,6 +93,10 @@ type World struct {
 	Senders   int       `json:"senders"`
 	Contracts []Account `json:"contracts"`
 	Blocks    []Block   `json:"blocks"`
+	// Authorities is the number of extra, unfunded EOAs (senderKeys[Senders .. Senders+Authorities)) that only sign
+	// authorizations; Delegs are delegations present in genesis.
+	Authorities int     `json:"authorities,omitempty"`
+	Delegs      []Deleg `json:"delegs,omitempty"`
 }
 
 func u64p(v uint64) *uint64 { return &v }
@@ -117,6 +137,17 @@ func (w *World) genesis() *core.Genesis {
 	for i := 0; i < w.Senders; i++ {
 		alloc[senderAddr(i)] = types.Account{Balance: new(big.Int).Mul(big.NewInt(1_000_000), big.NewInt(params.Ether))}
 	}
+	for _, d := range w.Delegs {
+		if d.Signer < 0 || d.Signer >= w.Senders+w.Authorities || d.Signer >= len(senderKeys) {
+			continue
+		}
+		acc := alloc[senderAddr(d.Signer)]
+		if acc.Balance == nil {
+			acc.Balance = new(big.Int)
+		}
+		acc.Code = types.AddressToDelegation(d.To)
+		alloc[senderAddr(d.Signer)] = acc
+	}
 	for _, c := range w.Contracts {
 		acc := types.Account{Nonce: 1, Code: c.Code, Balance: new(big.Int).SetUint64(c.Balance)}
 		if len(c.Storage) > 0 {
@@ -132,6 +163,16 @@ func (w *World) genesis() *core.Genesis {
 	return &core.Genesis{Config: cfg, Alloc: alloc, GasLimit: w.GasLimit, BaseFee: big.NewInt(params.InitialBaseFee), Difficulty: common.Big0}
 }
 
+// safeNonce is BlockGen.TxNonce for accounts that may not exist yet.
+func safeNonce(g *core.BlockGen, addr common.Address) (n uint64) {
+	defer func() {
+		if recover() != nil {
+			n = 0
+		}
+	}()
+	return g.TxNonce(addr)
+}
+
 func newEngine() consensus.Engine { return beacon.New(ethash.NewFaker()) }
 
 // builder generates the world's blocks one at a time with core.GenerateChain (sequential
@@ -145,7 +186,7 @@ type builder struct {
 	signer       types.Signer
 	dropped      int // transactions the generator could not include (gas pool, nonce cap); deterministic
 	lastReceipts types.Receipts
-	nonces       map[int]uint64   // transactions included so far per sender index
+	nonces       map[int]uint64   // state nonce of every sender after the last generated block
 	hdrChain     *core.BlockChain // if set, BLOCKHASH during generation resolves ancestors through this chain
 }
 
@@ -173,7 +214,41 @@ func (b *builder) next(i int) (*types.Block, types.Receipts) {
 			}
 			from := senderKeys[tp.From]
 			value := new(uint256.Int).SetUint64(tp.Value)
-			intr, err := core.IntrinsicGas(tp.Data, nil, nil, from.addr, tp.To, value, rules)
+			var auths []types.SetCodeAuthorization
+			if len(tp.Auths) > 0 {
+				if !rules.IsPrague || tp.To == nil {
+					b.dropped++
+					continue
+				}
+				bumped := map[common.Address]uint64{}
+				for _, a := range tp.Auths {
+					if a.Signer < 0 || a.Signer >= b.w.Senders+b.w.Authorities || a.Signer >= len(senderKeys) {
+						continue
+					}
+					k := senderKeys[a.Signer]
+					nonce := safeNonce(g, k.addr) + bumped[k.addr]
+					if k.addr == from.addr {
+						nonce++ // the sender's nonce is bumped before the authorizations are applied
+					}
+					if a.Skew == 0 {
+						bumped[k.addr]++
+					}
+					var target common.Address
+					if a.Target != nil {
+						target = *a.Target
+					}
+					auth, err := types.SignSetCode(k.key, types.SetCodeAuthorization{ChainID: *uint256.MustFromBig(cfg.ChainID), Address: target, Nonce: uint64(int64(nonce) + int64(a.Skew))})
+					if err != nil {
+						continue
+					}
+					auths = append(auths, auth)
+				}
+				if len(auths) == 0 {
+					b.dropped++
+					continue
+				}
+			}
+			intr, err := core.IntrinsicGas(tp.Data, nil, auths, from.addr, tp.To, value, rules)
 			if err != nil {
 				b.dropped++
 				continue
@@ -196,22 +271,47 @@ func (b *builder) next(i int) (*types.Block, types.Receipts) {
 				continue
 			}
 			feeCap := new(big.Int).Add(g.BaseFee(), new(big.Int).Mul(big.NewInt(int64(tp.Tip)), big.NewInt(params.GWei)))
-			tx := types.MustSignNewTx(from.key, b.signer, &types.DynamicFeeTx{
-				ChainID:   cfg.ChainID,
-				Nonce:     g.TxNonce(from.addr),
-				To:        tp.To,
-				Value:     new(big.Int).SetUint64(tp.Value),
-				Gas:       gas,
-				GasFeeCap: feeCap,
-				GasTipCap: new(big.Int).Mul(big.NewInt(int64(tp.Tip)), big.NewInt(params.GWei)),
-				Data:      tp.Data,
-			})
-			b.nonces[tp.From]++
+			// a delegated sender may have given its balance away (code running in its context): never feed AddTx a
+			// transaction it would panic on
+			need := new(big.Int).Mul(feeCap, new(big.Int).SetUint64(gas))
+			need.Add(need, new(big.Int).SetUint64(tp.Value))
+			if g.GetBalance(from.addr).ToBig().Cmp(need) < 0 {
+				b.dropped++
+				continue
+			}
+			var tx *types.Transaction
+			if len(auths) > 0 {
+				tx = types.MustSignNewTx(from.key, b.signer, &types.SetCodeTx{
+					ChainID:   uint256.MustFromBig(cfg.ChainID),
+					Nonce:     g.TxNonce(from.addr),
+					To:        *tp.To,
+					Value:     value,
+					Gas:       gas,
+					GasFeeCap: uint256.MustFromBig(feeCap),
+					GasTipCap: uint256.MustFromBig(new(big.Int).Mul(big.NewInt(int64(tp.Tip)), big.NewInt(params.GWei))),
+					Data:      tp.Data,
+					AuthList:  auths,
+				})
+			} else {
+				tx = types.MustSignNewTx(from.key, b.signer, &types.DynamicFeeTx{
+					ChainID:   cfg.ChainID,
+					Nonce:     g.TxNonce(from.addr),
+					To:        tp.To,
+					Value:     new(big.Int).SetUint64(tp.Value),
+					Gas:       gas,
+					GasFeeCap: feeCap,
+					GasTipCap: new(big.Int).Mul(big.NewInt(int64(tp.Tip)), big.NewInt(params.GWei)),
+					Data:      tp.Data,
+				})
+			}
 			if b.hdrChain != nil {
 				g.AddTxWithChain(b.hdrChain, tx)
 			} else {
 				g.AddTx(tx)
 			}
+		}
+		for i := 0; i < b.w.Senders; i++ {
+			b.nonces[i] = safeNonce(g, senderAddr(i))
 		}
 		for _, wd := range bp.Wds {
 			g.AddWithdrawal(&types.Withdrawal{Validator: 7, Address: wd.To, Amount: wd.Amount})
@@ -250,6 +350,15 @@ func genWorld(r *simcore.Rand, o worldOpts) *World {
 	for i := 0; i < w.Senders; i++ {
 		env.eoas = append(env.eoas, senderAddr(i))
 	}
+	// EIP-7702 (Prague+): extra unfunded authorities, delegations already present in genesis
+	setcode := isPrague(w.Fork)
+	delegated := map[int]bool{}
+	if setcode {
+		w.Authorities = r.Range(0, min(2, len(senderKeys)-w.Senders))
+		for i := 0; i < w.Authorities; i++ {
+			env.eoas = append(env.eoas, senderAddr(w.Senders+i))
+		}
+	}
 	for i := 0; i < nfresh; i++ {
 		env.fresh = append(env.fresh, freshAddr(i))
 	}
@@ -268,6 +377,14 @@ func genWorld(r *simcore.Rand, o worldOpts) *World {
 		w.Contracts = append(w.Contracts, c)
 	}
 	env.lower = env.all
+	if setcode {
+		for i := 0; i < w.Senders+w.Authorities; i++ {
+			if r.Bool(0.3) {
+				w.Delegs = append(w.Delegs, Deleg{Signer: i, To: env.all[r.Intn(len(env.all))]})
+				delegated[i] = true
+			}
+		}
+	}
 	// coinbase candidates: a fresh account, a sender, a contract
 	pickAny := func() common.Address {
 		switch r.Pick(3, 2, 2) {
@@ -333,6 +450,54 @@ func genWorld(r *simcore.Rand, o worldOpts) *World {
 				tx.To = &to
 				tx.Data = r.Bytes(r.Intn(64))
 				tx.Value = uint64(r.Intn(2))
+			}
+			if setcode && r.Bool(0.12) {
+				// EIP-7702 set-code transaction: set, re-point or clear delegations of senders / authorities
+				na := w.Senders + w.Authorities
+				to := pickAny()
+				if r.Bool(0.4) {
+					to = senderAddr(r.Intn(na))
+				}
+				tx = Tx{From: tx.From, Tip: tx.Tip, To: &to, Value: uint64(r.Intn(3))}
+				if r.Bool(0.3) {
+					tx.Data = r.Bytes(32)
+				}
+				for k := r.Range(1, 2); k > 0; k-- {
+					a := Auth{Signer: r.Intn(na)}
+					clearP := 0.2
+					if delegated[a.Signer] {
+						clearP = 0.6
+					}
+					switch {
+					case r.Bool(clearP): // clear
+						delegated[a.Signer] = false
+					case r.Bool(0.85):
+						t := env.all[r.Intn(len(env.all))]
+						a.Target = &t
+						delegated[a.Signer] = true
+					default: // delegate to a non-contract
+						t := pickAny()
+						a.Target = &t
+						delegated[a.Signer] = true
+					}
+					if r.Bool(0.08) {
+						a.Skew = []int{-1, 1, 5}[r.Intn(3)]
+					}
+					tx.Auths = append(tx.Auths, a)
+				}
+			} else if setcode && r.Bool(0.1) {
+				// observer: init code that looks at an authority's code from outside and stores what it sees
+				au := senderAddr(r.Intn(w.Senders + w.Authorities))
+				a := newAsm()
+				a.pushAddr(au).op(opEXTCODEHASH).push(0).op(opSSTORE)
+				a.pushAddr(au).op(opEXTCODESIZE).push(1).op(opSSTORE)
+				a.push(32).push(0).push(0).pushAddr(au).op(opEXTCODECOPY).push(0).op(opMLOAD).push(2).op(opSSTORE)
+				if r.Bool(0.5) {
+					emitCall(a, opCALL, 0, au, uint64(r.Intn(2)), 0, 32)
+					a.push(0).op(opMLOAD).push(3).op(opSSTORE)
+				}
+				a.push(0).push(0).op(opRETURN)
+				tx = Tx{From: tx.From, Tip: tx.Tip, Data: a.bytes()}
 			}
 			if pressure && r.Bool(0.3) {
 				// burner: init code INVALID consumes all execution gas the transaction may use
